@@ -129,7 +129,9 @@ PlansFor(n, v) ==
     [] OTHER -> Plans
 
 \* ValCap > 0 bounds the number of values per type (the heavier plan sets)
-ValuesOf(n) == IF ValCap = 0 THEN Values(RawEnv, TRef(n), Depth) ELSE Take(Values(RawEnv, TRef(n), Depth), ValCap)
+\* (leaf types keep all their boundary values)
+ValuesOf(n) == IF ValCap = 0 \/ ~IsConstructedKind(Resolve(RawEnv, TRef(n)).k) THEN Values(RawEnv, TRef(n), Depth)
+               ELSE Take(Values(RawEnv, TRef(n), Depth), ValCap)
 Init == \E n \in TypeNames : \E v \in ValuesOf(n) : \E p \in PlansFor(n, v) :
           InitSession([ty |-> n, val |-> v, plan |-> p])
 Next == Step(GenObs)
